@@ -6,7 +6,7 @@ PLAN_ENTRY = {'stages': [
     {'name': 'circles',
      'mc': [{'module': 'MC_C11', 'cfg': {'quick': 'MC_C11_quick.cfg', 'thorough': 'MC_C11_thorough.cfg'}, 'workers': 4,
              'timeout': {'quick': 300, 'thorough': 1800}}],
-     'gens': ['gen_c11_random', 'gen_c11_near_equal', 'gen_c11_far_segments'], 'trace': 'Trace_Circles',
+     'gens': ['gen_c11_random', 'gen_c11_near_equal', 'gen_c11_far_segments', 'gen_c11_far_tangents', 'gen_c11_gentle_triples'], 'trace': 'Trace_Circles',
      'judge_timeout': {'quick': 600, 'thorough': 3600}}],
     'assumptions': [
         'TLC evaluates the L1 operators of Circles.tla correctly (their mutual consistency and their acceptance of the exact '
@@ -230,4 +230,36 @@ def gen_c11_far_segments(rnd, tier):
         xe = rnd.choice((R + 3, h, 0, -1, h - 1, 2 * R))
         out.append({'m': 'circles', 'op': 'segfar', 'q': 1024, 'sc': rnd.choice((0, 0, -3, 2)), 'c': [0, 0, R], 'lvl': l, 'h': h, 'far': far, 'xe': xe,
                     'swap': rnd.randint(0, 1)})
+    return out
+
+
+def gen_c11_far_tangents(rnd, tier):
+    """tangent points from a point 1e3 .. 1e8 radii away ("every distance ratio d/r"), judged by relative residuals"""
+    out = []
+    for _ in range(60 if tier == 'quick' else 1000):
+        r = rnd.randint(1, 5)
+        k = rnd.choice((10, 14, 17, 20, 24, 27))
+        d = [(1 << k) + rnd.randint(-3, 3), rnd.randint(-1000, 1000)]
+        if rnd.random() < 0.5:
+            d = [d[1], -d[0]]
+        c = [rnd.randint(-5, 5), rnd.randint(-5, 5), r]
+        out.append({'m': 'circles', 'op': 'tanfar', 'q': 1024, 'sc': rnd.choice((0, -10, 3)), 'c': c, 'p': [c[0] + d[0], c[1] + d[1]]})
+    return out
+
+
+def gen_c11_gentle_triples(rnd, tier):
+    """three points that are nearly in line: chord 2L, sagitta h, sine of the turn at the middle point about 2h/L between 1e-4 and 1e-2"""
+    out = []
+    for _ in range(60 if tier == 'quick' else 1000):
+        L = rnd.choice((1000, 4000, 20000))
+        ratio = rnd.choice((5000, 2000, 800, 300, 100))          # L / h
+        h = max(1, L // ratio)
+        if 2 * h * 10000 < L:                                     # keep the sine at or above 2e-4
+            h = L // 5000 + 1
+        p0, p1, p2 = [0, 0], [L + rnd.randint(-3, 3), h * rnd.choice((-1, 1))], [2 * L, 0]
+        if rnd.random() < 0.5:
+            p0, p1, p2 = [p0[1], p0[0]], [p1[1], p1[0]], [p2[1], p2[0]]
+        o = [rnd.randint(-50, 50), rnd.randint(-50, 50)]
+        out.append({'m': 'circles', 'op': 'arc3far', 'q': 1024, 'sc': rnd.choice((0, -10, 3)),
+                    'p0': [p0[0] + o[0], p0[1] + o[1]], 'p1': [p1[0] + o[0], p1[1] + o[1]], 'p2': [p2[0] + o[0], p2[1] + o[1]]})
     return out
